@@ -117,6 +117,7 @@ type Sim struct {
 	Pending  string        // label being applied (for retrying a run whose thread was lost)
 	wd       *time.Timer
 	fcloseAt int
+	Panicked bool
 	advAfterClose int // clock travels after ForceClose
 }
 
@@ -223,9 +224,17 @@ func (s *Sim) resume(t *thread, msg string) bool {
 func (s *Sim) spawn(t *thread, f func()) bool {
 	s.cur = t
 	go func() {
+		defer func() {
+			// a panic inside the engine (e.g. close of a closed channel) must not kill the harness:
+			// it is a violation of every property checked here, with the schedule as its input
+			if r := recover(); r != nil {
+				s.viol("*", "panic", "%s/%d panicked: %v", t.kind, t.id, r)
+				s.Panicked = true
+			}
+			t.point = "fin"
+			s.arrive <- arrival{t}
+		}()
 		f()
-		t.point = "fin"
-		s.arrive <- arrival{t}
 	}()
 	return s.wait(t)
 }
